@@ -1063,6 +1063,22 @@ func pathSplit(path string) []string {
 	return strings.Split(path, string(filepath.Separator))
 }
 
+// unescapeMeta removes the backslashes that quote characters in a pattern
+// without any metacharacters, giving the file name that it matches.
+func unescapeMeta(pat string) string {
+	if !strings.Contains(pat, "\\") {
+		return pat
+	}
+	var sb strings.Builder
+	for i := 0; i < len(pat); i++ {
+		if pat[i] == '\\' && i+1 < len(pat) {
+			i++
+		}
+		sb.WriteByte(pat[i])
+	}
+	return sb.String()
+}
+
 func (cfg *Config) glob(base, pat string) ([]string, error) {
 	parts := pathSplit(pat)
 	matches := []string{""}
@@ -1098,6 +1114,8 @@ func (cfg *Config) glob(base, pat string) ([]string, error) {
 			}
 			continue
 		case !pattern.HasMeta(part, 0):
+			// Quoted characters such as \* stand for themselves.
+			part = unescapeMeta(part)
 			var newMatches []string
 			for _, dir := range matches {
 				match := dir
